@@ -20,6 +20,8 @@ model evaluator over abstract states, nothing of the repository is executed):
  block-exceptions the same construction end to end with the real Exceptions/ExceptionAnalysis: the block inside the
                  try range reports exactly that range and its handler block, the other blocks report nothing.
  end-convention  dex.determineException on one symbolic try item emits [2*start_addr, 2*start_addr+2*insn_count-1].
+ handler-pairing four try items over three handler entries (one shared), the first entry with a padded LEB128: every try
+                 range reports the handlers of the entry its handler_off refers to.
  handler-list    for encoded_catch_handler sizes 2, 0 and -2 the reported handlers are the typed pairs in order,
                  followed by (Ljava/lang/Throwable;, 2*catch_all_addr) exactly when size <= 0.
 """
@@ -48,9 +50,43 @@ class Token(PyModel):
         return "<%s>" % self.name
 
 
+class ModelBlock(PyModel):
+    """the one basic block of the guard scenarios: it starts at the handler address used there (0)"""
+
+    def __init__(self):
+        self.start, self.end, self.name = 0, 1 << 30, "bb@0"
+
+    def get_start(self):
+        return self.start
+
+    def get_end(self):
+        return self.end
+
+    def get_name(self):
+        return self.name
+
+
 class BBTable(PyModel):
+    def __init__(self):
+        self._bb = [ModelBlock()]
+
     def get_basic_block(self, idx):
-        return Token("bb@%s" % (idx,))
+        return self._bb[0]
+
+    def gets(self):
+        return list(self._bb)
+
+    def get(self):
+        return list(self._bb)
+
+    def __iter__(self):
+        return iter(list(self._bb))
+
+    def __len__(self):
+        return len(self._bb)
+
+    def __getitem__(self, i):
+        return self._bb[i]
 
 
 # --------------------------------------------------------------------------- guard
@@ -219,10 +255,19 @@ class Handler(PyModel):
 
 
 class CatchHandler(PyModel):
-    """encoded_catch_handler: size > 0: `size` typed handlers; size <= 0: |size| typed handlers followed by a catch-all"""
+    """encoded_catch_handler: size > 0: `size` typed handlers; size <= 0: |size| typed handlers followed by a catch-all.
+    `off` is the absolute file offset the entry was read at; `minimal_length` is what get_length()/get_raw() give (the entry
+    re-encoded with minimal LEB128), which is smaller than the space the entry occupies when a LEB128 in it is padded."""
 
-    def __init__(self, off, size, handlers, catch_all_addr):
+    def __init__(self, off, size, handlers, catch_all_addr, minimal_length=4):
         self.off, self.size, self.handlers, self.catch_all_addr = off, size, list(handlers), catch_all_addr
+        self._minimal_length = minimal_length
+
+    def get_length(self):
+        return self._minimal_length
+
+    def get_raw(self):
+        return bytearray(b"\x00" * self._minimal_length)
 
     def get_off(self):
         return self.off
@@ -256,7 +301,13 @@ class HandlerList(PyModel):
         return self.size
 
     def get_obj(self):
-        return list(self.list)
+        return bytearray([self.size & 0x7F])  # the uleb128 size of the list
+
+    def get_raw(self):
+        return self.get_obj() + b"".join(bytes(h.get_raw()) for h in self.list)
+
+    def get_length(self):
+        return len(self.get_raw())
 
 
 class CodeModel(PyModel):
@@ -332,15 +383,25 @@ class ExcRecorder(PyModel):
         return t
 
 
-def _one_try_method():
-    """four instructions of symbolic lengths 2*u1..2*u4 code units; a try range covering exactly the second
-    instruction whose single typed handler begins at the third; the fourth is return-void"""
-    u = [Lin.atom("u%d" % k, low=1) for k in (1, 2, 3, 4)]
-    offs = [Lin.of(0), u[0] * 2, (u[0] + u[1]) * 2, (u[0] + u[1] + u[2]) * 2]
-    ins = [InsModel(u[0] * 2), InsModel(u[1] * 2), InsModel(u[2] * 2), InsModel(u[3] * 2, 0x0E, "return-void")]
-    ch = CatchHandler(104, 1, [Handler(7, u[0] + u[1])], Lin.atom("unused_catch_all"))
-    code = CodeModel([TryItem(u[0], u[1], 4)], HandlerList([ch]))
-    return EncMethod(code, list(zip([0] + offs[1:], ins))), u, offs
+def _one_try_method(handler_inside=False):
+    """four instructions of symbolic lengths (in code units); a try range covering exactly the second instruction, one typed
+    handler; the fourth instruction is return-void.  handler_inside=False: the handler begins at the third instruction.
+    handler_inside=True: the handler address lies INSIDE the third instruction (h units behind its start, k units before its
+    end), so no block begins there and the handler block is the block that contains the address."""
+    u1, u2, u4 = (Lin.atom("u%d" % k, low=1) for k in (1, 2, 4))
+    if handler_inside:
+        h, k = Lin.atom("h", low=1), Lin.atom("k", low=1)
+        u3 = h + k
+        handler_units = u1 + u2 + h
+    else:
+        u3 = Lin.atom("u3", low=1)
+        handler_units = u1 + u2
+    u = [u1, u2, u3, u4]
+    offs = [Lin.of(0), u1 * 2, (u1 + u2) * 2, (u1 + u2 + u3) * 2]
+    ins = [InsModel(u1 * 2), InsModel(u2 * 2), InsModel(u3 * 2), InsModel(u4 * 2, 0x0E, "return-void")]
+    ch = CatchHandler(101, 1, [Handler(7, handler_units)], Lin.atom("unused_catch_all"))
+    code = CodeModel([TryItem(u1, u2, 1)], HandlerList([ch]))
+    return EncMethod(code, list(zip([0] + offs[1:], ins))), u, offs, handler_units * 2
 
 
 # --------------------------------------------------------------------------- call site / per-block exception information
@@ -368,7 +429,7 @@ def check_call_site(sink, repo, m):
     # ---- (1) the queries: the constructor is run without code, the Exceptions object is replaced by a recorder,
     #          then _create_basic_block() is evaluated as a whole
     it = Interp(repo, lenient=LENIENT)
-    method, u, offs = _one_try_method()
+    method, u, offs, _h = _one_try_method()
     method.code_on = False
     me = _new_method_analysis(it, m, method)
     exc_attrs = [k for k, v in me.attrs.items() if isinstance(v, Obj) and v.cls is m.cls("Exceptions")]
@@ -408,43 +469,43 @@ def check_call_site(sink, repo, m):
                    "of the block is (%s, %s)" % (s_, want[1], e_, ", ".join(str(x) for x in args) if args else "<no query of this run>", want[0], want[1]),
                    node=cb.node, detail="query == (start, end-1) == (%s, %s), answer stored on the same block" % want)
     # ---- (2) end to end with the real Exceptions / ExceptionAnalysis / determineException
-    it = Interp(repo, lenient=LENIENT)
-    method, u, offs = _one_try_method()
-    me = _new_method_analysis(it, m, method)
-    bbs, blocks = _blocks_of(it, me, m)
-    try_lo, try_hi = offs[1], offs[2] - 1
-    handler_at = offs[2]
-    seen_try = 0
-    for b in blocks:
-        s_ = Lin.of(it.call(it.getattr(b, "get_start"), []))
-        e_ = Lin.of(it.call(it.getattr(b, "get_end"), []))
-        ea = it.call(it.getattr(b, "get_exception_analysis"), [])
-        covered = (s_ <= try_hi) and (try_lo <= e_ - 1)
-        inst = "block [%s, %s)" % (s_, e_)
-        sink.count("blocks_end_to_end")
-        if not covered:
-            sink.check("block-exceptions", inst, ea is None, cb, "%s outside the try range reports %s" % (inst, "an entry" if ea is not None else None),
-                       "%s contains no instruction of the try range [%s, %s] but reports exception information" % (inst, try_lo, try_hi), node=cb.node,
-                       detail="no try range reported")
-            continue
-        seen_try += 1
-        d = None
-        if isinstance(ea, Obj):
-            try:
-                d = it.call(it.getattr(ea, "get"), [])
-            except PyRaise as e:
-                d = "raises %s" % e
-        hb = None
-        if isinstance(d, dict) and isinstance(d.get("list"), list) and len(d["list"]) == 1:
-            hb = d["list"][0]
-        hblock = next((x for x in blocks if Lin.of(it.call(it.getattr(x, "get_start"), [])) == handler_at), None)
-        ok = (isinstance(d, dict) and Lin.of(d.get("start")) == try_lo and Lin.of(d.get("end")) == try_hi and isinstance(hb, dict)
-              and hb.get("name") == "Ltype7;" and Lin.of(hb.get("idx")) == handler_at and hblock is not None
-              and hb.get("basic_block") == it.call(it.getattr(hblock, "get_name"), []))
-        sink.check("block-exceptions", inst, ok, cb, "%s inside the try range reports %s" % (inst, _short(d)),
-                   "%s lies in the try range [%s, %s] (handler Ltype7; at %s) but reports %s" % (inst, try_lo, try_hi, handler_at, _short(d)),
-                   node=cb.node, detail="reports range [%s, %s] and the handler block at %s" % (try_lo, try_hi, handler_at))
-    sink.require(seen_try >= 1, "no basic block of the model method covers the try range (block construction left the model)")
+    for inside in (False, True):
+        it = Interp(repo, lenient=LENIENT)
+        method, u, offs, handler_at = _one_try_method(inside)
+        me = _new_method_analysis(it, m, method)
+        bbs, blocks = _blocks_of(it, me, m)
+        try_lo, try_hi = offs[1], offs[2] - 1
+        where = "handler inside an instruction" if inside else "handler at an instruction"
+        seen_try = 0
+        bounds = [(Lin.of(it.call(it.getattr(b, "get_start"), [])), Lin.of(it.call(it.getattr(b, "get_end"), []))) for b in blocks]
+        for b, (s_, e_) in zip(blocks, bounds):
+            ea = it.call(it.getattr(b, "get_exception_analysis"), [])
+            covered = (s_ <= try_hi) and (try_lo <= e_ - 1)
+            inst = "%s, block [%s, %s)" % (where, s_, e_)
+            sink.count("blocks_end_to_end")
+            if not covered:
+                sink.check("block-exceptions", inst, ea is None, cb, "%s outside the try range reports %s" % (inst, "an entry" if ea is not None else None),
+                           "%s contains no instruction of the try range [%s, %s] but reports exception information" % (inst, try_lo, try_hi), node=cb.node,
+                           detail="no try range reported")
+                continue
+            seen_try += 1
+            # the handler block is the block whose byte range contains the handler address
+            hblock = next((x for x, (hs, he) in zip(blocks, bounds) if hs <= handler_at and handler_at < he), None)
+            hname = it.call(it.getattr(hblock, "get_name"), []) if hblock is not None else None
+            d = None
+            if isinstance(ea, Obj):
+                try:
+                    d = it.call(it.getattr(ea, "get"), [])
+                except PyRaise as e:
+                    d = "get() raises %s (handler block %s)" % (e.name, "unresolved" if "NoneType" in str(e) else "?")
+            hb = d["list"][0] if isinstance(d, dict) and isinstance(d.get("list"), list) and len(d["list"]) == 1 else None
+            ok = (isinstance(d, dict) and Lin.of(d.get("start")) == try_lo and Lin.of(d.get("end")) == try_hi and isinstance(hb, dict)
+                  and hb.get("name") == "Ltype7;" and Lin.of(hb.get("idx")) == handler_at and hname is not None and hb.get("basic_block") == hname)
+            sink.check("block-exceptions", inst, ok, cb, "%s inside the try range reports %s" % (inst, _short(d)),
+                       "%s lies in the try range [%s, %s] (handler Ltype7; at byte %s, i.e. in block %s) but reports %s"
+                       % (inst, try_lo, try_hi, handler_at, hname, _short(d)), node=cb.node,
+                       detail="reports range [%s, %s] and the block containing the handler address %s" % (try_lo, try_hi, handler_at))
+        sink.require(seen_try >= 1, "no basic block of the model method covers the try range (block construction left the model)")
 
 
 def _short(d):
@@ -462,8 +523,8 @@ def check_end_convention(sink, repo):
     cases = [("typed handlers only (size 2)", 2, 2), ("catch-all only (size 0)", 0, 0), ("typed handlers and catch-all (size -2)", -2, 2)]
     for label, size, ntyped in cases:
         hs = [Handler(7 + k, Lin.atom("handler%d_addr" % k)) for k in range(ntyped)]
-        ch = CatchHandler(104, size, hs, Lin.atom("catch_all_addr"))
-        method = EncMethod(CodeModel([TryItem(sa, ic, 4)], HandlerList([ch])))
+        ch = CatchHandler(101, size, hs, Lin.atom("catch_all_addr"))
+        method = EncMethod(CodeModel([TryItem(sa, ic, 1)], HandlerList([ch])))
         it = Interp(repo, lenient=LENIENT)
         try:
             r = it.call(it.closure_of(f), [VmModel(), method])
@@ -495,12 +556,51 @@ def check_end_convention(sink, repo):
                    detail="handlers = %s" % [(n_, str(a_)) for n_, a_ in want])
 
 
+def check_pairing(sink, repo):
+    """four try items over three encoded_catch_handlers (two try items share one); the FIRST handler entry contains a padded
+    (non-minimal, legal) LEB128, so it occupies 8 bytes although its minimal re-encoding has 4"""
+    d = sink.mod(DEX)
+    f = d.func("determineException")
+    entries = [(1, 8), (9, 4), (13, 4)]  # (offset relative to the list, bytes occupied)
+    handlers = []
+    for k, (rel, _occ) in enumerate(entries):
+        handlers.append(CatchHandler(100 + rel, 1, [Handler(20 + k, Lin.atom("h%d_addr" % k))], Lin.atom("unused"), minimal_length=4))
+    refs = [0, 1, 2, 1]
+    tries = [TryItem(Lin.atom("t%d_start" % i), Lin.atom("t%d_count" % i), entries[r][0]) for i, r in enumerate(refs)]
+    method = EncMethod(CodeModel(tries, HandlerList(handlers)))
+    it = Interp(repo, lenient=LENIENT)
+    try:
+        r = it.call(it.closure_of(f), [VmModel(), method])
+        got = {}
+        for z in r:
+            got[repr(Lin.of(z[0]))] = [(h[0], Lin.of(h[1])) for h in z[2:]]
+        err = None
+    except PyRaise as e:
+        if e.name in ("AttributeError", "TypeError", "NameError"):
+            raise AnalysisError("determineException raised %s on the multi-try model" % e)
+        got, err = {}, e.name
+    for i, rix in enumerate(refs):
+        key = repr(Lin.atom("t%d_start" % i) * 2)
+        want = [("Ltype%d;" % (20 + rix), Lin.atom("h%d_addr" % rix) * 2)]
+        g = got.get(key)
+        sink.count("paired_tries")
+        sink.check("handler-pairing", "try item #%d -> handler entry #%d" % (i + 1, rix + 1), err is None and g == want, f,
+                   "try item #%d (handler entry #%d, first entry has a padded LEB128): %s" % (
+                       i + 1, rix + 1, "raises %s" % err if err else "handlers %s" % ([(n_, str(a_)) for n_, a_ in g] if g is not None else "missing")),
+                   "with three encoded_catch_handlers of which the first contains a padded LEB128 (8 bytes occupied, 4 when re-encoded), try item #%d "
+                   "refers to entry #%d but determineException %s; expected %s" % (
+                       i + 1, rix + 1, "raises %s" % err if err else "reports %s" % ([(n_, str(a_)) for n_, a_ in g] if g is not None else "no range for it"),
+                       [(n_, str(a_)) for n_, a_ in want]), node=f.node,
+                   detail="try item #%d is paired with its own handler entry #%d" % (i + 1, rix + 1))
+
+
 # --------------------------------------------------------------------------- driver
 def core(sink, repo):
     m = sink.mod(ANALYSIS)
     check_guard(sink, repo, m)
     check_call_site(sink, repo, m)
     check_end_convention(sink, repo)
+    check_pairing(sink, repo)
 
 
 def _mutants(m, d):
@@ -681,6 +781,7 @@ def run(ctx):
     ctx.floor("first_match_cases", 52)
     ctx.floor("call_sites", 1)
     ctx.floor("try_items", 3)
+    ctx.floor("paired_tries", 4)
     ctx.floor("blocks_queried", 3)
     ctx.floor("blocks_end_to_end", 3)
     ctx.floor("entry_ranges", 1)
